@@ -10,7 +10,7 @@ def generate(tier, seed):
     cases = []
     dist = {"configs": 0}
     K = kinds(("AO", "DO", "AD"))
-    names = ["acl", "rbac", "rbac_res", "rbac_dom", "keymatch", "in_op", "rbac_DO", "rbac_AD", "rbac_dom_DO", "acl_AD", "acl_DO"]
+    names = ["acl", "rbac", "rbac_res", "rbac_dom", "keymatch", "in_op", "rbac_DO", "rbac_AD", "rbac_dom_DO", "acl_AD", "acl_DO", "acl_AOe", "rbac_AOe"]
     for name in names:
         d = K[name]
         sp = spec_of(d)
